@@ -10,7 +10,7 @@ RULE = ("real ssnet.runonce on both tunnel ends over fake sockets, every micro-s
         "accepted; distinct by case seed")
 TRUSTED_BASE = sc.STREAM_TB
 ASSUMPTIONS = sc.STREAM_ASSUMPTIONS
-PROFILES = ["bulk","bulk","close","latency","wrap","reuse","many"]
+PROFILES = ["bulk","bulk","close","latency","wrap","reuse","many","tunnel"]
 
 
 def correspondence(ctx):
